@@ -54,8 +54,9 @@ impl MokaCache {
     pub fn insert(&self, pid: String, p: Arc<Process>, Tracked(ca): Tracked<&mut CacheAbs>)
         ensures *final(ca) == (CacheAbs { cached: old(ca).cached.insert(pid@, *p), ..*old(ca) }) { unimplemented!() }
     #[verifier::external_body]
-    pub fn remove(&self, pid: &str, Tracked(ca): Tracked<&mut CacheAbs>)
-        ensures *final(ca) == (CacheAbs { cached: old(ca).cached.remove(pid@), ..*old(ca) }) { unimplemented!() }
+    // moka remove: the entry is dropped; the value it held, if any, is handed back
+    pub fn remove(&self, pid: &str, Tracked(ca): Tracked<&mut CacheAbs>) -> (r: Option<Arc<Process>>)
+        ensures *final(ca) == (CacheAbs { cached: old(ca).cached.remove(pid@), ..*old(ca) }), r is Some <==> old(ca).cached.dom().contains(pid@) { unimplemented!() }
     #[verifier::external_body]
     pub fn run_pending_tasks(&self, Tracked(ca): Tracked<&mut CacheAbs>) ensures *final(ca) == *old(ca) { unimplemented!() }
     #[verifier::external_body]
